@@ -49,14 +49,22 @@ Forward(s, m, tries) ==
 
 Release(w) ==
   IF ~w.hold THEN w
+  \* a worker killed inside its handler (zombie): the handler finishes now, nobody hears of it
+  ELSE IF ~w.alive THEN [w EXCEPT !.hold = FALSE, !.handled = (IF w.cur = "" THEN @ ELSE Append(@, w.cur)), !.mute = (IF w.cur = "" THEN @ ELSE @ \cup {w.cur}), !.cur = "", !.q = <<>>]
   ELSE IF w.exiting /\ w.cur # ""
     \* an exit signal (RemoveWorkers) was waiting in the urgent queue: the handler in progress finishes, then the worker terminates
     THEN [w EXCEPT !.hold = FALSE, !.handled = Append(@, w.cur), !.cur = "", !.q = <<>>, !.alive = FALSE]
   ELSE [w EXCEPT !.hold = FALSE, !.handled = (IF w.cur = "" THEN @ ELSE Append(@, w.cur)) \o w.q, !.cur = "", !.q = <<>>]
 
 \* Kill cannot interrupt a handler: the one in progress completes, what was queued is lost
-Kill(w) == [w EXCEPT !.alive = FALSE, !.handled = (IF w.cur = "" \/ ~w.alive THEN @ ELSE Append(@, w.cur)),
+\* (the harness opens the gate of the worker it kills: a zombie - killed earlier inside its handler - finishes that handler now)
+Kill(w) == IF ~w.alive /\ w.hold /\ w.cur # "" THEN Release(w) ELSE
+           [w EXCEPT !.alive = FALSE, !.handled = (IF w.cur = "" \/ ~w.alive THEN @ ELSE Append(@, w.cur)),
                       !.mute = (IF w.cur = "" \/ ~w.alive THEN @ ELSE @ \cup {w.cur}), !.cur = "", !.q = <<>>, !.hold = FALSE]
+
+\* killed while kept inside its handler: dead for the pool at once (the next message that meets it gets a new worker), what was queued
+\* is lost, the handler in progress finishes when it is released
+KillHeld(w) == IF ~w.alive THEN w ELSE IF w.hold /\ w.cur # "" THEN [w EXCEPT !.alive = FALSE, !.q = <<>>] ELSE Kill(w)
 
 RECURSIVE AddN(_, _)
 AddN(s, k) == IF k = 0 THEN s ELSE AddN([ring |-> Append(s.ring, Len(s.ws) + 1), ws |-> Append(s.ws, W0)], k - 1)
@@ -76,6 +84,7 @@ Apply(e, s) ==
   ELSE IF e.op = "hold" THEN IF e.w \in 1..Len(s.ws) /\ s.ws[e.w].alive THEN [s EXCEPT !.ws[e.w].hold = TRUE] ELSE s
   ELSE IF e.op = "release" THEN IF e.w \in 1..Len(s.ws) THEN [s EXCEPT !.ws[e.w] = Release(@)] ELSE s
   ELSE IF e.op = "kill" THEN IF e.w \in 1..Len(s.ws) THEN [s EXCEPT !.ws[e.w] = Kill(@)] ELSE s
+  ELSE IF e.op = "killheld" THEN IF e.w \in 1..Len(s.ws) THEN [s EXCEPT !.ws[e.w] = KillHeld(@)] ELSE s
   ELSE IF e.op = "add" THEN AddN(s, e.n)
   ELSE IF e.op = "remove" THEN RemoveN(s, e.n)
   ELSE s
